@@ -164,6 +164,7 @@ func NewELSim(genesis *engine.ExecutableData) (*ELSim, error) {
 	if err != nil {
 		return nil, err
 	}
+	noteTemp(dir)
 	el := &ELSim{
 		Dir: dir, Path: filepath.Join(dir, "geth.ipc"),
 		blocks: map[common.Hash]*elBlock{}, jobs: map[engine.PayloadID]*buildJob{},
@@ -636,4 +637,25 @@ func (el *ELSim) BuildPayload(parent common.Hash, feeRecipient common.Address, b
 	d.ReceiptsRoot = common.BytesToHash([]byte("receipts"))
 	d.BlockHash = ComputeBlockHash(&d, beacon, reqs)
 	return &d, reqs, nil
+}
+
+// ---- scratch directories of this process (abandoned instances and early exits leave some behind)
+
+var tempMu sync.Mutex
+var tempDirs []string
+
+func noteTemp(dir string) {
+	tempMu.Lock()
+	tempDirs = append(tempDirs, dir)
+	tempMu.Unlock()
+}
+
+// CleanupTemp removes every scratch directory this process created (called before exit).
+func CleanupTemp() {
+	tempMu.Lock()
+	defer tempMu.Unlock()
+	for _, d := range tempDirs {
+		_ = os.RemoveAll(d)
+	}
+	tempDirs = nil
 }
